@@ -4,6 +4,7 @@ import (
 	"context"
 	"errors"
 	"fmt"
+	"math/big"
 	"sync"
 	"testing"
 	"time"
@@ -15,6 +16,7 @@ import (
 	"github.com/agglayer/aggkit/reorgdetector"
 	treetypes "github.com/agglayer/aggkit/tree/types"
 	aggkittypes "github.com/agglayer/aggkit/types"
+	"github.com/ethereum/go-ethereum"
 	"github.com/ethereum/go-ethereum/common"
 	"github.com/ethereum/go-ethereum/core/types"
 	"github.com/ethereum/go-ethereum/crypto"
@@ -76,33 +78,50 @@ type c16Case struct {
 	Blocks    []c16Ev
 	Gaps      []int // tip advance per poll
 	RestartAt int
+	// an L2 reorg: at the ForkStep-th tip poll the blocks ForkAt..end are replaced by ForkSuffix (ForkAt is above the
+	// finalized block of that moment and at or below the visible tip). ForkAt == 0: no reorg.
+	ForkStep   int
+	ForkAt     uint64
+	ForkSuffix []c16Ev
+}
+
+// canonical returns the final canonical chain's events per block.
+func (c c16Case) canonical() []c16Ev {
+	if c.ForkAt == 0 {
+		return c.Blocks
+	}
+	return append(append([]c16Ev{}, c.Blocks[:c.ForkAt-1]...), c.ForkSuffix...)
+}
+
+// c16GenEvents appends events for blocks from..to (1-based) to evs, given the live set and the next index.
+func c16GenEvents(rt *rapid.T, evs []c16Ev, live []common.Hash, idx uint32, from, to int, salt byte) ([]c16Ev, []common.Hash, uint32) {
+	for i := from; i <= to; i++ {
+		switch rapid.SampledFrom([]int{0, 0, 1, 1, 1, 2}).Draw(rt, "evKind") {
+		case 1:
+			g := common.BigToHash(common.Big1)
+			g[0], g[1], g[2], g[3] = byte(i), byte(i>>8), 0xee, salt
+			idx += uint32(rapid.IntRange(1, 3).Draw(rt, "idxGap"))
+			evs = append(evs, c16Ev{Kind: 1, GER: g, Idx: idx, Lag: rapid.SampledFrom([]int{0, 0, 0, 0, 1, 3}).Draw(rt, "l1InfoLag")})
+			live = append(live, g)
+		case 2:
+			if len(live) > 0 {
+				k := rapid.IntRange(0, len(live)-1).Draw(rt, "rmWhich")
+				evs = append(evs, c16Ev{Kind: 2, GER: live[k]})
+				live = append(live[:k:k], live[k+1:]...)
+			} else {
+				evs = append(evs, c16Ev{})
+			}
+		default:
+			evs = append(evs, c16Ev{})
+		}
+	}
+	return evs, live, idx
 }
 
 func c16Gen(rt *rapid.T) c16Case {
 	var c c16Case
 	n := rapid.IntRange(2, 40).Draw(rt, "nBlocks")
-	live := []common.Hash{}
-	idx := uint32(0)
-	for i := 0; i < n; i++ {
-		switch rapid.SampledFrom([]int{0, 0, 1, 1, 1, 2}).Draw(rt, "evKind") {
-		case 1:
-			g := common.BigToHash(common.Big1)
-			g[0], g[1], g[2] = byte(i), byte(i>>8), 0xee
-			idx += uint32(rapid.IntRange(1, 3).Draw(rt, "idxGap"))
-			c.Blocks = append(c.Blocks, c16Ev{Kind: 1, GER: g, Idx: idx, Lag: rapid.SampledFrom([]int{0, 0, 0, 0, 1, 3}).Draw(rt, "l1InfoLag")})
-			live = append(live, g)
-		case 2:
-			if len(live) > 0 {
-				k := rapid.IntRange(0, len(live)-1).Draw(rt, "rmWhich")
-				c.Blocks = append(c.Blocks, c16Ev{Kind: 2, GER: live[k]})
-				live = append(live[:k], live[k+1:]...)
-			} else {
-				c.Blocks = append(c.Blocks, c16Ev{})
-			}
-		default:
-			c.Blocks = append(c.Blocks, c16Ev{})
-		}
-	}
+	c.Blocks, _, _ = c16GenEvents(rt, nil, nil, 0, 1, n, 0)
 	total := 0
 	for total < n {
 		g := rapid.IntRange(1, 10).Draw(rt, "pollGap")
@@ -113,7 +132,63 @@ func c16Gen(rt *rapid.T) c16Case {
 	if rapid.IntRange(0, 2).Draw(rt, "restart") == 0 {
 		c.RestartAt = rapid.IntRange(2, 40).Draw(rt, "restartAt")
 	}
+	if len(c.Gaps) >= 2 && rapid.IntRange(0, 2).Draw(rt, "l2Reorg") == 0 {
+		step := rapid.IntRange(1, len(c.Gaps)-1).Draw(rt, "forkStep")
+		lat := 0
+		for _, g := range c.Gaps[:step] {
+			lat += g
+		}
+		if lat > n {
+			lat = n
+		}
+		fin := 0
+		if lat > 3 {
+			fin = lat - 3
+		}
+		at := rapid.IntRange(fin+1, lat).Draw(rt, "forkAt")
+		// known finding F4 (C04): reorging a block that holds a removal does not bring the removed row back. Forks that
+		// replace a visible removal are excluded by construction (moved above it) and counted.
+		for b := lat; b >= at; b-- {
+			if c.Blocks[b-1].Kind == 2 {
+				at = b + 1
+				c16ExcludedF4++
+				break
+			}
+		}
+		if at <= lat {
+			var live []common.Hash
+			idx := uint32(0)
+			for _, e := range c.Blocks[:at-1] {
+				switch e.Kind {
+				case 1:
+					live = append(live, e.GER)
+					idx = e.Idx
+				case 2:
+					for k, g := range live {
+						if g == e.GER {
+							live = append(live[:k:k], live[k+1:]...)
+							break
+						}
+					}
+				}
+			}
+			c.ForkStep, c.ForkAt = step, uint64(at)
+			c.ForkSuffix, _, _ = c16GenEvents(rt, nil, live, idx+100, at, n, 0xf0)
+		}
+	}
 	return c
+}
+
+var c16ExcludedF4 int
+
+func c16EvLogs(e c16Ev) []types.Log {
+	switch e.Kind {
+	case 1:
+		return []types.Log{{Address: c16GERAddr, Topics: []common.Hash{c16InsertSig, e.GER, {0xaa}}}}
+	case 2:
+		return []types.Log{{Address: c16GERAddr, Topics: []common.Hash{c16RemoveSig, e.GER, {0xbb}}}}
+	}
+	return nil
 }
 
 func (c c16Case) logs(i int) []types.Log {
@@ -130,7 +205,7 @@ func (c c16Case) logs(i int) []types.Log {
 // live set as of block tip (reference).
 func (c c16Case) liveAt(tip uint64) map[common.Hash]uint32 {
 	live := map[common.Hash]uint32{}
-	for i, e := range c.Blocks {
+	for i, e := range c.canonical() {
 		if uint64(i+1) > tip {
 			break
 		}
@@ -147,7 +222,7 @@ func (c c16Case) liveAt(tip uint64) map[common.Hash]uint32 {
 func c16Verdict(c c16Case, s *lastgersync.LastGERSync, tip uint64) string {
 	live := c.liveAt(tip)
 	maxIdx := uint32(0)
-	for _, e := range c.Blocks {
+	for _, e := range append(append([]c16Ev{}, c.Blocks...), c.ForkSuffix...) {
 		if e.Idx > maxIdx {
 			maxIdx = e.Idx
 		}
@@ -187,7 +262,7 @@ func c16Run(c c16Case) (verdict string, inconcl string) {
 	}
 	n := uint64(len(c.Blocks))
 	q := &c16Querier{idx: map[common.Hash]uint32{}, lag: map[common.Hash]int{}}
-	for _, e := range c.Blocks {
+	for _, e := range append(append([]c16Ev{}, c.Blocks...), c.ForkSuffix...) {
 		if e.Kind == 1 {
 			q.idx[e.GER] = e.Idx
 			q.lag[e.GER] = e.Lag
@@ -200,7 +275,11 @@ func c16Run(c c16Case) (verdict string, inconcl string) {
 		parked    int
 		rpcs      int
 		restarted bool
+		forked    bool
 		cancelFn  context.CancelFunc
+		// observation O7: EVMDriver.handleReorg retries processor.Reorg for ever on a cancelled context, so Sync does not
+		// return when it is cancelled inside a reorg; such an instance is abandoned like a killed process
+		cancelledAt time.Time
 	)
 	chain.Hook = func(ch *fakechain.Chain, call fakechain.Call) error {
 		mu.Lock()
@@ -211,9 +290,18 @@ func c16Run(c c16Case) (verdict string, inconcl string) {
 		rpcs++
 		if c.RestartAt >= 0 && !restarted && rpcs == c.RestartAt && cancelFn != nil {
 			restarted = true
+			cancelledAt = time.Now()
 			cancelFn()
 		}
 		if call.Method == "HeaderByNumber" && call.Tag == "latest" {
+			if c.ForkAt != 0 && step == c.ForkStep && !forked {
+				forked = true
+				var suffix [][]types.Log
+				for _, e := range c.ForkSuffix {
+					suffix = append(suffix, c16EvLogs(e))
+				}
+				ch.ForkLocked(c.ForkAt, suffix)
+			}
 			if step < len(c.Gaps) {
 				lat = min64(lat+uint64(c.Gaps[step]), n)
 				step++
@@ -266,11 +354,20 @@ func c16Run(c c16Case) (verdict string, inconcl string) {
 	deadline := time.Now().Add(120 * time.Second)
 	var idleSince time.Time
 	for {
+		stopped := false
 		select {
 		case <-done:
+			stopped = true
+		default:
+			mu.Lock()
+			stopped = !cancelledAt.IsZero() && time.Since(cancelledAt) > 2*time.Second
+			mu.Unlock()
+		}
+		if stopped {
 			ctx, cancel = context.WithCancel(context.Background())
 			mu.Lock()
 			cancelFn = cancel
+			cancelledAt = time.Time{}
 			parked = 0
 			mu.Unlock()
 			if done, err = start(ctx); err != nil {
@@ -278,7 +375,6 @@ func c16Run(c c16Case) (verdict string, inconcl string) {
 				return "", "constructor after restart: " + err.Error()
 			}
 			continue
-		default:
 		}
 		mu.Lock()
 		isParked := step >= len(c.Gaps) && parked >= 3
@@ -307,8 +403,7 @@ func c16Run(c c16Case) (verdict string, inconcl string) {
 	cancel()
 	select {
 	case <-done:
-	case <-time.After(90 * time.Second):
-		inconcl = "syncer did not stop within 90s of cancellation"
+	case <-time.After(3 * time.Second): // O7: abandoned
 	}
 	return
 }
@@ -345,6 +440,10 @@ func TestC16(t *testing.T) {
 		if c.RestartAt >= 0 {
 			rec.Class("with_restart")
 		}
+		if c.ForkAt != 0 {
+			rec.Class("with_l2_reorg")
+		}
+		rec.Set("forks_moved_above_a_visible_removal_known_finding_F4", c16ExcludedF4)
 		if nt && rec.WantSample() {
 			var evs []string
 			for i, e := range c.Blocks {
@@ -356,6 +455,277 @@ func TestC16(t *testing.T) {
 		}
 		if v != "" {
 			rt.Fatalf("%s\ncase: %+v", v, c)
+		}
+	})
+}
+
+// ---- FEP mode: the downloader polls the L2 GER contract's globalExitRootMap for every L1 info index it does not hold yet ----
+
+var c16MapSelector = crypto.Keccak256([]byte("globalExitRootMap(bytes32)"))[:4]
+
+type c16FEPQuerier struct {
+	leaves []common.Hash // L1 info tree: index -> GER (the L1 syncer is complete from the start)
+}
+
+func (q *c16FEPQuerier) GetLastL1InfoTreeRoot(context.Context) (treetypes.Root, error) {
+	if len(q.leaves) == 0 {
+		return treetypes.Root{}, aggkitdb.ErrNotFound
+	}
+	return treetypes.Root{Index: uint32(len(q.leaves) - 1)}, nil
+}
+func (q *c16FEPQuerier) GetInfoByIndex(_ context.Context, i uint32) (*l1infotreesync.L1InfoTreeLeaf, error) {
+	if int(i) >= len(q.leaves) {
+		return nil, aggkitdb.ErrNotFound
+	}
+	return &l1infotreesync.L1InfoTreeLeaf{L1InfoTreeIndex: i, GlobalExitRoot: q.leaves[i]}, nil
+}
+func (q *c16FEPQuerier) GetInfoByGlobalExitRoot(common.Hash) (*l1infotreesync.L1InfoTreeLeaf, error) {
+	return nil, aggkitdb.ErrNotFound
+}
+
+type c16FEPCase struct {
+	NLeaves   int   // L1 info tree size
+	InjectAt  []int // per L2 block (number = index+1): L1 info index injected in that block, or -1
+	Gaps      []int
+	RestartAt int
+}
+
+func c16FEPGen(rt *rapid.T) c16FEPCase {
+	var c c16FEPCase
+	n := rapid.IntRange(2, 30).Draw(rt, "nBlocks")
+	next := 0
+	for i := 0; i < n; i++ {
+		if rapid.IntRange(0, 2).Draw(rt, "inject") == 0 {
+			next += rapid.IntRange(0, 2).Draw(rt, "idxGap") // the oracle injects increasing indexes and may skip some
+			c.InjectAt = append(c.InjectAt, next)
+			next++
+		} else {
+			c.InjectAt = append(c.InjectAt, -1)
+		}
+	}
+	c.NLeaves = next + rapid.IntRange(0, 3).Draw(rt, "notInjectedYet")
+	total := 0
+	for total < n {
+		g := rapid.IntRange(1, 8).Draw(rt, "pollGap")
+		c.Gaps = append(c.Gaps, g)
+		total += g
+	}
+	c.RestartAt = -1
+	if rapid.IntRange(0, 2).Draw(rt, "restart") == 0 {
+		c.RestartAt = rapid.IntRange(2, 60).Draw(rt, "restartAt")
+	}
+	return c
+}
+
+func c16FEPRun(c c16FEPCase) (verdict, inconcl string) {
+	chain := fakechain.New()
+	n := uint64(len(c.InjectAt))
+	for range c.InjectAt {
+		chain.Extend(nil)
+	}
+	q := &c16FEPQuerier{}
+	for i := 0; i < c.NLeaves; i++ {
+		g := common.BigToHash(common.Big1)
+		g[0], g[1], g[2] = byte(i), byte(i>>8), 0xfe
+		q.leaves = append(q.leaves, g)
+	}
+	injectedAt := map[common.Hash]uint64{} // GER -> L2 block of its injection
+	idxOf := map[common.Hash]uint32{}
+	for b, idx := range c.InjectAt {
+		if idx >= 0 {
+			injectedAt[q.leaves[idx]] = uint64(b + 1)
+			idxOf[q.leaves[idx]] = uint32(idx)
+		}
+	}
+	var (
+		mu        sync.Mutex
+		step      int
+		lat       uint64
+		parked    int
+		rpcs      int
+		restarted bool
+		cancelFn  context.CancelFunc
+	)
+	chain.CallHandler = func(ch *fakechain.Chain, call ethereum.CallMsg) ([]byte, error) {
+		out := make([]byte, 32)
+		if len(call.Data) == 36 && string(call.Data[:4]) == string(c16MapSelector) {
+			if b, ok := injectedAt[common.BytesToHash(call.Data[4:])]; ok && b <= ch.LatestLocked() {
+				ts := common.BigToHash(new(big.Int).SetUint64(ch.HeaderLocked(b).Time))
+				copy(out, ts[:])
+			}
+		}
+		return out, nil
+	}
+	chain.Hook = func(ch *fakechain.Chain, call fakechain.Call) error {
+		mu.Lock()
+		defer mu.Unlock()
+		if call.Method == "HeaderByNumber" && call.Tag == "finalized" {
+			return nil
+		}
+		rpcs++
+		if c.RestartAt >= 0 && !restarted && rpcs == c.RestartAt && cancelFn != nil {
+			restarted = true
+			cancelFn()
+		}
+		if call.Method == "HeaderByNumber" && call.Tag == "latest" {
+			if step < len(c.Gaps) {
+				lat = min64(lat+uint64(c.Gaps[step]), n)
+				step++
+			} else {
+				parked++
+			}
+			fin := uint64(0)
+			if lat > 3 {
+				fin = lat - 3
+			}
+			ch.SetPointersLocked(lat, lat, fin)
+		} else if call.Method == "CallContract" {
+			parked = 0
+		}
+		return nil
+	}
+	dir, clean := tmpDB("c16fep")
+	defer clean()
+	rdPath := dir + ".rd"
+	var cur *lastgersync.LastGERSync
+	start := func(ctx context.Context) (chan struct{}, error) {
+		rd, err := reorgdetector.New(chain, reorgdetector.Config{DBPath: rdPath, CheckReorgsInterval: cfgtypes.NewDuration(time.Millisecond),
+			FinalizedBlock: aggkittypes.FinalizedBlock}, reorgdetector.L2)
+		if err != nil {
+			return nil, err
+		}
+		if err := rd.Start(ctx); err != nil {
+			return nil, err
+		}
+		s, err := lastgersync.New(ctx, dir, rd, chain, c16GERAddr, q, time.Millisecond, -1, aggkittypes.LatestBlock, time.Millisecond, 100, false, lastgersync.FEP)
+		if err != nil {
+			return nil, err
+		}
+		cur = s
+		done := make(chan struct{})
+		go func() { _ = s.Start(ctx); close(done) }()
+		return done, nil
+	}
+	ctx, cancel := context.WithCancel(context.Background())
+	mu.Lock()
+	cancelFn = cancel
+	mu.Unlock()
+	done, err := start(ctx)
+	if err != nil {
+		cancel()
+		return "", "constructor: " + err.Error()
+	}
+	// the FEP downloader reads the contract at the latest block and, after a restart, only looks again when a block
+	// newer than lastProcessed+1 appears: what it must have found is judged against the blocks it has processed (lp),
+	// what it may have found against the visible tip
+	check := func(tip, lp uint64) string {
+		live := map[common.Hash]uint32{}
+		maxIdx := uint32(0)
+		for g, b := range injectedAt {
+			if b <= tip {
+				live[g] = idxOf[g]
+				if idxOf[g] > maxIdx {
+					maxIdx = idxOf[g]
+				}
+			}
+		}
+		for x := uint32(0); x <= maxIdx+1; x++ {
+			exists := false
+			for g, i := range live {
+				exists = exists || (i >= x && injectedAt[g] <= lp)
+			}
+			got, err := cur.GetFirstGERAfterL1InfoTreeIndex(bg, x)
+			if err != nil {
+				if !errors.Is(err, aggkitdb.ErrNotFound) {
+					return fmt.Sprintf("query X=%d failed: %v", x, err)
+				}
+				if exists {
+					return fmt.Sprintf("query X=%d says not found, but a GER with index >= %d was injected in a block <= %d (injected indexes %v)", x, x, tip, live)
+				}
+				continue
+			}
+			i, ok := live[got.GlobalExitRoot]
+			if !ok {
+				return fmt.Sprintf("query X=%d returned GER %s (index %d) which was not injected on L2 in a block <= %d", x, got.GlobalExitRoot.Hex()[:12], got.L1InfoTreeIndex, tip)
+			}
+			if got.L1InfoTreeIndex < x || got.L1InfoTreeIndex != i {
+				return fmt.Sprintf("query X=%d returned index %d (the GER's index is %d)", x, got.L1InfoTreeIndex, i)
+			}
+		}
+		return ""
+	}
+	deadline := time.Now().Add(120 * time.Second)
+	var idleSince time.Time
+	for {
+		select {
+		case <-done:
+			ctx, cancel = context.WithCancel(context.Background())
+			mu.Lock()
+			cancelFn = cancel
+			parked = 0
+			mu.Unlock()
+			if done, err = start(ctx); err != nil {
+				cancel()
+				return "", "constructor after restart: " + err.Error()
+			}
+			continue
+		default:
+		}
+		mu.Lock()
+		isParked := step >= len(c.Gaps) && parked >= 3
+		tip := lat
+		mu.Unlock()
+		if lp, e := cur.GetLastProcessedBlock(bg); isParked && e == nil && lp+1 >= tip {
+			verdict = check(tip, lp)
+			if verdict == "" {
+				break
+			}
+			if idleSince.IsZero() {
+				idleSince = time.Now()
+			}
+			if time.Since(idleSince) > 3*time.Second {
+				break
+			}
+		} else {
+			idleSince = time.Time{}
+		}
+		if time.Now().After(deadline) {
+			mu.Lock(); lp, _ := cur.GetLastProcessedBlock(bg); inconcl = fmt.Sprintf("node did not reach quiescence within 120s (FEP mode): script step %d/%d, parked polls %d, tip %d, last processed %d, case %+v", step, len(c.Gaps), parked, lat, lp, c); mu.Unlock()
+			break
+		}
+		time.Sleep(500 * time.Microsecond)
+	}
+	cancel()
+	select {
+	case <-done:
+	case <-time.After(90 * time.Second):
+		inconcl = "syncer did not stop within 90s of cancellation"
+	}
+	return
+}
+
+func TestC16FEP(t *testing.T) {
+	rec := ev.For("C16", c16Rule)
+	rec.Set("fep_mode", "a quarter of the case budget runs lastgersync.New in FEP mode: the downloader asks the L2 GER contract (eth_call answered by the scripted chain from the injection history) for every L1 info index it does not hold yet; same oracle, no removals (the FEP contract has none)")
+	rapid.Check(t, func(rt *rapid.T) {
+		if rapid.IntRange(0, 3).Draw(rt, "runFEPMode") != 0 {
+			return
+		}
+		c := c16FEPGen(rt)
+		v, inc := c16FEPRun(c)
+		if inc != "" {
+			rt.Fatalf("INCONCLUSIVE: %s", inc)
+		}
+		inj := 0
+		for _, i := range c.InjectAt {
+			if i >= 0 {
+				inj++
+			}
+		}
+		rec.Case(inj >= 2, fmt.Sprint("fep", c))
+		rec.Class("fep_mode_cases")
+		if v != "" {
+			rt.Fatalf("[FEP mode] %s\ncase: %+v", v, c)
 		}
 	})
 }
